@@ -54,7 +54,7 @@ theorem C06_runloop_schedules_under_lock (w w' : World) (b' : BId) (i : IId) (b 
     (h : step w (.hSched (.rl b') i b e k) = some w') : w.lock = some b' := by
   obtain ⟨hg, _⟩ := step_some h
   simp [guard, checks, Checks.ok, execActive] at hg
-  exact hg.2.2.1.1
+  exact hg.2.2.2.1.1
 
 /-- C10: virtual time never passes the deadline of a handler that is still scheduled, running or awaiting:
     the handler is cancelled at its deadline, not later. -/
